@@ -58,6 +58,13 @@ theorem packet_roundtrip (cfg : Cfg) (l : List PV) (d : Bytes)
   refine ⟨tt, es, hd, ?_⟩
   simp [decodePacket, isBundle_encode he, hp]
 
+/-- The order of `OscPacket(dgram).messages`: a permutation of the flattened bundle tree, sorted by
+    timetag, and stable (messages with the same timetag keep the order in which they were sent). -/
+theorem packet_order (l : List (Nat × DMsg)) :
+    (sortByTime l).Perm l ∧ (sortByTime l).Pairwise (fun a b => a.1 ≤ b.1) ∧
+    ∀ t, (sortByTime l).filter (fun p => p.1 == t) = l.filter (fun p => p.1 == t) :=
+  ⟨sortByTime_perm l, sortByTime_sorted l, fun t => sortByTime_stable t l⟩
+
 /-- Nested message lists (completion messages) are sent as blobs that are themselves encodings to
     which `msg_roundtrip` applies; same for bundle-shaped lists (`nested_bundle_blob`). -/
 theorem nested_msg_blob (cfg : Cfg) (l : List PV) (w : WArg)
